@@ -33,6 +33,21 @@ fn wrong_tokens(rng: &mut Rng, agreed: [u8; 4], peer: Option<[u8; 4]>) -> Vec<([
     if let Some(p) = peer {
         v.push((p, "peer-token"));
     }
+    // related tokens: comparisons that fold, truncate or reorder bytes accept some of these
+    let mut t = agreed;
+    let x = 1 + rng.below(255) as u8;
+    let i = rng.usize_below(4);
+    let j = (i + 1 + rng.usize_below(3)) % 4;
+    t[i] ^= x;
+    t[j] ^= x;
+    v.push((t, "pair-xor"));
+    v.push(([agreed[3], agreed[2], agreed[1], agreed[0]], "reversed"));
+    let mut t = agreed;
+    let k = if rng.bool() { 0 } else { 3 };
+    t[k] = t[k].wrapping_add(1 + rng.below(255) as u8);
+    v.push((t, "one-end-byte"));
+    let d = 1 + rng.below(255) as u8;
+    v.push(([agreed[0].wrapping_add(d), agreed[1].wrapping_add(d), agreed[2].wrapping_add(d), agreed[3].wrapping_add(d)], "all-bytes-shifted"));
     v.push(([0xff; 4], "ffffffff"));
     v.push(([0; 4], "00000000"));
     let mut r = [0u8; 4];
@@ -478,7 +493,7 @@ fn one<C: Conn>(ctx: &mut Ctx, rng: &mut Rng, variant: Variant, moves: usize) {
 
 fn main() {
     let mut ctx = Ctx::from_args("C03");
-    ctx.rule = "each case = one chaos history (0.6 with token, 0.7) with up to ~40 fork points; at each fork point every endpoint that has fixed a token is cloned and fed ~30-60 foreign datagrams (every control kind and plausible chunk packets written with a bit-flipped / rotated / peer's / ffffffff / 00000000 / random token or no token, real in-flight datagrams re-written with another token incl. recompression, truncations, random bytes); non-trivial = at least one foreign datagram fed; distinct = hash of visited endpoint-state set and number of foreign datagrams".into();
+    ctx.rule = "each case = one chaos history (0.6 with token, 0.7) with up to ~40 fork points; at each fork point every endpoint that has fixed a token is cloned and fed ~30-60 foreign datagrams (every control kind and plausible chunk packets written with a bit-flipped / rotated / reversed / pairwise-xored / end-byte / byte-shifted / peer's / ffffffff / 00000000 / random token or no token, real in-flight datagrams re-written with another token incl. recompression, truncations, random bytes); non-trivial = at least one foreign datagram fed; distinct = hash of visited endpoint-state set and number of foreign datagrams".into();
     ctx.assumptions = vec![
         "a datagram counts as foreign when the token it carries by the harness's own reading (0.7: header bytes 3..7; 0.6: last four bytes of the decompressed payload) differs from the agreed one; connless datagrams are excluded by the statement".into(),
         "inert = no event, no Callback::send, no secure_random draw, identical Debug fingerprint of the complete state and send timer, identical needs_tick; 1 in 12 additionally by a 50-step shadow-twin differential".into(),
